@@ -68,7 +68,17 @@ sed -i 's#path = "/work/[A-Za-z0-9]*/repo"#path = "/repo"#' harness/Cargo.toml
 # the lock file is regenerated from /repo's lock (offline resolution adds the harness-only crates)
 cp /repo/Cargo.lock harness/Cargo.lock && (cd harness && cargo build --offline 2>&1 | tail -1)
 if grep -rIl '^<<<<<<< \|^>>>>>>> ' --exclude-dir=.git --exclude-dir=target --exclude-dir=work --exclude-dir=build . ; then echo 'conflict markers remain in the files above'; exit 1; fi
+python3 tools/mkasbuilt.py || true
 git add -A
 git status --short | grep -E "^(UU|AA|DU|UD)" && { echo "unresolved conflicts remain"; exit 1; }
 git commit -qm "merge $P from agent workspace" || true
 echo "merged $P"
+# guard against a silently failed merge: the workspace's theorem counts must have arrived
+for id in $P "$@"; do
+  d=$(python3 -c "import sys; sys.path.insert(0,'tools'); import props; print(props.PROPS['$id']['coq_dir'] if '$id' in props.PROPS else '')" 2>/dev/null)
+  [ -n "$d" ] || continue
+  ws=$(git show FETCH_HEAD:coq/$d/Properties.v 2>/dev/null | grep -c '^Theorem')
+  here=$(grep -c '^Theorem' coq/$d/Properties.v 2>/dev/null)
+  if [ "$ws" != "$here" ]; then echo "WARNING: $id has $here theorems here but $ws in the workspace — merge incomplete?"; fi
+done
+if ! git merge-base --is-ancestor FETCH_HEAD HEAD; then echo "WARNING: workspace HEAD is NOT an ancestor of /verif HEAD — the merge did not happen"; fi
